@@ -140,3 +140,29 @@ Definition msg_class (m : msg) : mclass :=
   | SubMsg n ty _ => MSub n ty
   | ArrMsg n ty _ _ => MArr n ty
   end.
+
+(* ---- frozen reference: the declared widths of the message fields (property C15 quantifies over
+   "all field values in their declared widths"): class, then (field, bits, signed) in order ---- *)
+Open Scope string_scope.
+Definition ref_msg_widths : list (string * list (string * Z * bool)) := [
+  ("InitNewAppMessage", [("app_id", 32, false); ("max_qubits", 8, false)]);
+  ("OpenEPRSocketMessage", [("app_id", 32, false); ("epr_socket_id", 32, true); ("remote_node_id", 32, true);
+                            ("remote_epr_socket_id", 32, true); ("min_fidelity", 8, false)]);
+  ("StopAppMessage", [("app_id", 32, false)]);
+  ("SignalMessage", [("signal", 8, false)]);
+  ("MsgDoneMessage", [("msg_id", 32, false)]);
+  ("ErrorMessage", [("err_code", 8, false)]);
+  ("ReturnRegMessage", [("register.register_name", 2, false); ("register.register_index", 4, false); ("value", 32, true)]);
+  ("ReturnArrayMessageHeader", [("address.address", 32, true); ("length", 32, true)]);
+  ("OptionalInt", [("type", 8, false); ("_value", 32, true)])
+].
+
+Definition width_eqb (a b : string * Z * bool) : bool :=
+  String.eqb (fst (fst a)) (fst (fst b)) && (snd (fst a) =? snd (fst b))%Z && Bool.eqb (snd a) (snd b).
+
+Definition widths_row_eqb (a b : string * list (string * Z * bool)) : bool :=
+  String.eqb (fst a) (fst b) && list_eqb width_eqb (snd a) (snd b).
+
+(* every reference class is present in the regenerated widths with exactly its declared fields *)
+Definition widths_conform (gen : list (string * list (string * Z * bool))) : bool :=
+  forallb (fun r => existsb (widths_row_eqb r) gen) ref_msg_widths.
